@@ -185,6 +185,11 @@ func (e *Engine) checkInverted(
 		go check(ctx, innerCh)
 		select {
 		case result := <-innerCh:
+			// an error is not a membership decision: never invert it into "is member"
+			if result.Err != nil {
+				resultCh <- result
+				return
+			}
 			// invert result here
 			switch result.Membership {
 			case checkgroup.IsMember:
